@@ -4,6 +4,9 @@ workloads run, for each property.  (Orchestration data only.)"""
 MC = "model_checking"
 
 PROPS = {
+    "C03": {"level": MC, "steps": [{"kind": "wl", "name": "c03"}]},
+    "C11": {"level": MC, "steps": [{"kind": "wl", "name": "c11"}]},
+    "C12": {"level": MC, "steps": [{"kind": "wl", "name": "c12"}]},
     "C06": {"level": MC, "steps": [{"kind": "wl", "name": "c06"}]},
     "C13": {"level": MC, "steps": [{"kind": "wl", "name": "c13"}]},
     "C14": {"level": MC, "steps": [{"kind": "wl", "name": "c14"}]},
